@@ -2,7 +2,8 @@
 (* Generator for C17 / C05 (converse) / C07: the operator x operand-type     *)
 (* matrix.  Every binary operator applied to every pair of operand kinds,    *)
 (* every unary operator to every kind, every cast from every kind to every   *)
-(* scalar type - in the initialiser of an un-annotated let, i.e. where only  *)
+(* scalar type, every postfix form (tuple index, field, array index) to every *)
+(* kind - in the initialiser of an un-annotated let, i.e. where only         *)
 (* the operator rule decides.  The check builds the AST and the text of each *)
 (* case; GarbleTypes.WellTyped decides which must be accepted and which      *)
 (* rejected (Trace_Types.tla); none may crash the front end.                 *)
@@ -14,6 +15,7 @@ Targets == {"bool", "u8", "i8", "u16", "i32", "u64", "usize"}
 Cases == {[form |-> "bin", op |-> o, l |-> x, r |-> y] : o \in BinOps, x \in Kinds, y \in Kinds}
          \cup {[form |-> "un", op |-> o, l |-> x, r |-> "-"] : o \in UnOps, x \in Kinds}
          \cup {[form |-> "cast", op |-> tgt, l |-> x, r |-> "-"] : tgt \in Targets, x \in Kinds}
+         \cup {[form |-> "postfix", op |-> o, l |-> x, r |-> "-"] : o \in {"tup0", "tup1", "tup2", "field_x", "field_y", "index0", "index_u8", "index_var"}, x \in Kinds}
          \cup {[form |-> "opassign", op |-> o, l |-> x, r |-> y] : o \in BinOps \ {"lt", "gt", "le", "ge", "eq", "ne", "land", "lor"}, x \in Kinds \ {"lt", "lu", "li"}, y \in Kinds}
 VARIABLE c
 Init == c \in Cases
